@@ -146,28 +146,19 @@ class Check:
                         vio.append({'what': 'malformed XML from %s %s: %r' % (how, flags, row[how]),
                                     'case': {'kind': 'classify', 'text': t, 'meta': {'kind': 'malformed'}},
                                     'impl': row[how], 'expected': ['err', 'MosInvalidXML']})
-        # static tie: the two dict literals of mostypes.py against the model's tables (Classify.v)
-        import static
-        tags, shapes = static.class_tables(impl.REPO)
-        want_tags = [('roCreate', 'RunningOrder'), ('roStorySend', 'StorySend'), ('roStoryAppend', 'StoryAppend'),
-                     ('roStoryDelete', 'StoryDelete'), ('roStoryInsert', 'StoryInsert'), ('roStoryMove', 'StoryMove'),
-                     ('roStoryReplace', 'StoryReplace'), ('roItemDelete', 'ItemDelete'), ('roItemInsert', 'ItemInsert'),
-                     ('roItemMoveMultiple', 'ItemMoveMultiple'), ('roItemReplace', 'ItemReplace'), ('roReplace', 'RunningOrderReplace'),
-                     ('roMetadataReplace', 'MetaDataReplace'), ('roReadyToAir', 'ReadyToAir'), ('roDelete', 'RunningOrderEnd'),
-                     ('roElementAction', 'ElementAction')]
-        want_shapes = {('REPLACE', False, False): 'EAStoryReplace', ('REPLACE', True, False): 'EAItemReplace',
-                       ('DELETE', False, False): 'EAStoryDelete', ('DELETE', False, True): 'EAItemDelete',
-                       ('INSERT', False, False): 'EAStoryInsert', ('INSERT', True, False): 'EAItemInsert',
-                       ('SWAP', False, False): 'EAStorySwap', ('SWAP', False, True): 'EAItemSwap',
-                       ('MOVE', False, False): 'EAStoryMove', ('MOVE', True, True): 'EAItemMove'}
-        if tags != want_tags or shapes != want_shapes:
-            dis.append({'case': {'kind': 'static', 'tags': tags, 'shapes': {str(k): v for k, v in (shapes or {}).items()}},
-                        'impl': 'classification tables in mostypes.py', 'model': 'tag_class_map / ea_table of Classify.v', 'explained': bool(vio)})
+        # translator tie: the two dict literals of mostypes.py (and base_tag_name of every class) are translated
+        # from the current source into work/GenTables.v and proved equal to the model's tables by the kernel
+        import gentables
+        gt = gentables.run(impl.REPO)
+        if not gt['ok']:
+            dis.append({'case': {'kind': 'translator', 'stage': gt['stage'], 'detail': gt['detail']},
+                        'impl': 'classification tables in mostypes.py', 'model': 'tag_class_map / ea_table / base_tag_name of Classify.v (work/GenTables.v does not check)',
+                        'explained': bool(vio)})
         n = len(docs) * 6 + len(MALFORMED) * 6
         samples = [{'text': d['text'], 'model': list(mo)} for d, mo in list(zip(docs, model))[::max(1, len(docs) // 3)][:3]]
         return {'evaluations': n, 'distinct': len(sigs), 'rule': self.rule, 'samples': samples, 'distribution': dist,
                 'disagreements': dis, 'violations': vio,
-                'extra': {'documents': len(docs), 'malformed_texts': len(MALFORMED), 'configurations': ['default', '-W error'],
+                'extra': {'translated_tables': gt, 'documents': len(docs), 'malformed_texts': len(MALFORMED), 'configurations': ['default', '-W error'],
                           'sources': ['str', 'bytes', 'file']}}
 
     def replay(self, rep):
